@@ -1,10 +1,12 @@
 CONSTANTS
   GenOps <- OpNames
-  GenCtx = {"top", "open", "skip", "rec", "mac", "rept", "struct", "sect"}
+  GenCtx = {"top", "open", "skip", "rec", "mac", "rept", "struct", "sect", "ltop", "lnarrow", "lshort"}
   GenClasses = {"empty", "0", "m1", "h31", "h63", "str", "float", "undef", "fwd"}
   AllClasses = {"m1", "h63", "lstr"}
   MaxPos = 2
   BigCounts = {257, 477}
+  GenCounts = {"c4", "c5", "c6", "c127", "c128", "c129", "c255", "c256", "c257", "c511", "c512", "c513", "c1000",
+               "c5000", "c32767", "c65536"}
 INIT Init
 NEXT Next
 VIEW View
